@@ -49,7 +49,7 @@ func runC07(e *Env) {
 		"handlers treat Params as read-only; registration is finished before the first request",
 		"the uncached twin is the specification; both twins are built by the same code path with one option different",
 	}
-	e.RunCases("twins", e.N(3000, 60000), 0, c07Case)
+	e.RunCases("twins", e.N(3000, 200000), 0, c07Case)
 	e.Require("model.hits_predicted", 1000)
 	e.Require("model.evictions_predicted", 300)
 	e.Require("steps.head_fallback", 50)
